@@ -455,12 +455,24 @@ func startServers(cfg *config.Config, stats metrics.Provider) {
 						if strings.Contains(target, ":") {
 							buffer.WriteString(":")
 							buffer.WriteString(strings.Split(target, ":")[1])
+							port := buffer.String()
+							buffer.Reset()
+
+							// The port is text from the route configuration. Use
+							// its canonical spelling so that ':8080', ':08080'
+							// and ':http-alt' are one listener and skip what is
+							// not a port. Port 0 would be a new listener on a
+							// random port with every refresh.
+							addr, err := net.ResolveTCPAddr("tcp", port)
+							if err != nil || addr.Port == 0 {
+								continue
+							}
+							port = (&net.TCPAddr{Port: addr.Port}).String()
 
 							schemes := tableSchemes(rts)
 							if len(schemes) == 1 && schemes[0] == "tcp" {
-								ports = append(ports, buffer.String())
+								ports = append(ports, port)
 							}
-							buffer.Reset()
 						}
 						ports = unique(ports)
 					}
@@ -490,8 +502,11 @@ func startServers(cfg *config.Config, stats metrics.Provider) {
 								Noroute:     tcpNoRoute,
 							}
 							l.Addr = port
+							// the port comes from the routing table and may be
+							// taken by the time the listener starts: a route
+							// must not be able to bring the proxy down
 							if err := proxy.ListenAndServeTCP(l, h, tlscfg); err != nil {
-								exit.Fatal("[FATAL] ", err)
+								log.Printf("[ERROR] Dynamic TCP listener on port %s failed. %s", port, err)
 							}
 						}()
 					}
